@@ -332,7 +332,7 @@ func TestPopulations(t *testing.T) {
 	rec := ev.New(t, prop, "random-populations",
 		"rapid: 1..10 items over agents/caches/staging/other areas of a private data directory: agent installations (binary atime and mtime drawn independently around 30 d), caches and staging roots (mtime around 7 d; offsets 11 s..60 d, band +-10 s without verdict, future stamps), nested contents, symlinks to an outside canary tree (old and young targets), dangling links, non-directories in unexpected places, old files in unrelated areas; oracle from the statement's thresholds and the instants measured around the call. Non-trivial: the population holds at least one item that must go and one that must stay")
 	base := t.TempDir()
-	ev.Check(t, rec, 1000, 20000, func(rt *rapid.T) {
+	ev.Check(t, rec, 1000, 8000, func(rt *rapid.T) {
 		c := drawCase(rt)
 		if aborted {
 			return
